@@ -378,8 +378,8 @@ def run_solvers(res, spec):
                             if rule != "random" and not is_best(oid, key_values(rule, ref, st, filters, avail)):
                                 res.violation(check, "selected-operation-not-best", sig=sig, history=hist, selected=oid, available=avail, **common)
                                 break
-                            if chooser == "first" and m != ref.ops[oid][2][0]:
-                                res.violation(check, "first-machine-chooser-did-not-take-first-machine", sig=sig, history=hist, selected=oid, machine=m, **common)
+                            if m not in ref.ops[oid][2]:
+                                res.violation(check, "machine-chooser-picked-ineligible-machine", sig=sig, history=hist, selected=oid, machine=m, **common)
                                 break
                             hist = hist + ((ref.ops[oid][0], m),)
                     # the solver's own loop (solve) must agree for deterministic configurations
